@@ -22,7 +22,7 @@ type Task struct {
 	Done    bool
 	Panic   interface{}
 	wake    chan struct{}
-	skipOne string // a Point with this label is passed without parking, once (see Go)
+	SkipOne string // a Point with this label is passed without parking, once (see Go)
 }
 
 // Sched owns the tasks of one test case.
@@ -107,11 +107,11 @@ func Point(label string, arg interface{}) {
 	if t == nil {
 		return
 	}
-	if t.skipOne == label {
-		t.skipOne = ""
+	if t.SkipOne == label {
+		t.SkipOne = ""
 		return
 	}
-	t.skipOne = ""
+	t.SkipOne = ""
 	t.Label, t.Arg = label, arg
 	s.parked <- struct{}{}
 	<-t.wake
@@ -141,7 +141,7 @@ func Go(first string, f func()) {
 		return
 	}
 	nt := s.Spawn("spawned", f)
-	nt.skipOne = first
+	nt.SkipOne = first
 }
 
 // Now replaces time.Now in instrumented code.
